@@ -888,6 +888,13 @@ def trim_allocation(prog, rep):
         l_, r_ = strip_casts(e["l"]), strip_casts(e["r"])
         if l_ is None or r_ is None or l_["k"] != "ref" or r_["k"] != "ref" or l_.get("decl") != "local" or r_.get("decl") != "local":
             continue
+        # ... and only when this function itself compares the two cursors somewhere: that is the form in which the order is visible
+        # to the branch facts (after `find_bounds (str, &start, &end)` the order is known to the helper's own variables, not these)
+        pair = {l_["name"], r_["name"]}
+        compared = any(n["k"] == "bin" and n["op"] in ("<", "<=", ">", ">=", "==", "!=") and {guards.key(n["l"]), guards.key(n["r"])} == pair
+                       for blk in fn.blocks.values() if blk.cond is not None for n in walk(blk.cond))
+        if not compared:
+            continue
         judged.append((c, l_["name"], r_["name"], k_))
     for (c, a, b_, k_) in judged:
         bad = []
